@@ -7,6 +7,7 @@ mod amount;
 mod bootcache;
 mod quote;
 mod wire;
+mod wireshape;
 mod parsers;
 mod store;
 mod register;
@@ -35,6 +36,7 @@ fn main() {
         ("BootCache", bootcache::generate),
         ("Quote", quote::generate),
         ("Wire", wire::generate),
+        ("WireShape", wireshape::generate),
         ("Parsers", parsers::generate),
         ("Store", store::generate),
         ("Register", register::generate),
